@@ -796,3 +796,17 @@ fn c02_k_history_saturates() {
     h.tick_hist();
     assert!(h.ticks_since_occurrences[0] == t0.saturating_add(1));
 }
+
+// =======================================================================================
+// hook for harnesses in other crates (re-exported from /repo/keyberon/src/layout.rs under
+// cfg(kani)): run `f` on an iterator over a queue holding exactly `events`
+// =======================================================================================
+pub fn verif_with_queued_iter<R>(events: &[(Event, u16)], f: impl FnOnce(QueuedIter) -> R) -> R {
+    let mut q: Queue = ArrayDeque::new();
+    let mut i = 0;
+    while i < events.len() {
+        let _ = q.push_back(Queued { event: events[i].0, since: events[i].1 });
+        i += 1;
+    }
+    f(QueuedIter(q.iter()))
+}
